@@ -110,3 +110,22 @@ Proof.
     replace (B + Z.succ (Z.of_nat (length r)) * a_inc a)%Z with (B + a_inc a + Z.of_nat (length r) * a_inc a)%Z by lia.
     apply IH; auto; try lia.
 Qed.
+
+(* a sustained run of drops reaches the floor 1 within (initial - 1) samples, and stays there *)
+Theorem aimd_drop_run ss : forall a, (1 <= a_limit a < 2^52)%Z -> fin (a_ratio a) = true -> (0 <= R (a_ratio a) <= 1) ->
+  Forall (fun s => s_drop s = true) ss ->
+  (1 <= a_limit (aimd_run a ss) <= Z.max 1 (a_limit a - Z.of_nat (length ss)))%Z.
+Proof.
+  induction ss as [|s r IH]; intros a Hl Fr Hr HD; cbn [aimd_run fold_left length].
+  - lia.
+  - inversion HD as [|? ? Hd Hrest]; subst. fold (aimd_run (o_st (aimd_step a s)) r).
+    pose proof (aimd_drop_bounds (a_limit a) (a_ratio a) Hl Fr Hr) as B.
+    assert (E: o_st (aimd_step a s) = {| a_limit := aimd_drop_limit (a_limit a) (a_ratio a); a_inc := a_inc a; a_ratio := a_ratio a |})
+      by (unfold aimd_step; rewrite Hd; reflexivity).
+    rewrite E. specialize (IH {| a_limit := aimd_drop_limit (a_limit a) (a_ratio a); a_inc := a_inc a; a_ratio := a_ratio a |}).
+    cbn [a_limit a_ratio] in IH. specialize (IH ltac:(lia) Fr Hr Hrest). rewrite Nat2Z.inj_succ. lia.
+Qed.
+
+Corollary aimd_floor_reached ss a : (1 <= a_limit a < 2^52)%Z -> fin (a_ratio a) = true -> (0 <= R (a_ratio a) <= 1) ->
+  Forall (fun s => s_drop s = true) ss -> (a_limit a - 1 <= Z.of_nat (length ss))%Z -> a_limit (aimd_run a ss) = 1%Z.
+Proof. intros Hl Fr Hr HD Hn. pose proof (aimd_drop_run ss a Hl Fr Hr HD). lia. Qed.
